@@ -4,11 +4,14 @@ import SaramaVerif.Model.Admin
   Bridge obligations for C19: what tools/extract regenerated from admin.go / errors.go / *_request.go on this
   run (Gen.C19.*) is what the hand-written model uses.
 
-  Only loop-free, closure-free fragments can be translated: the request-version selection chains, the
-  `requiredVersion` tables, the error-code constants and the tail of `DeleteConsumerGroup` (the same
-  decision table the closures of CreateTopic / DeleteTopic / CreatePartitions apply to their item).
-  `retryOnError` (loop), `isErrNoController` (type switch), the closures passed to `retryOnError` and the
-  grouping loops are tied by correspondence (harness) only.
+  Translated: the request-version selection chains, the `requiredVersion` tables, the error-code constants,
+  the tail of `DeleteConsumerGroup`, the body of `retryOnError`'s loop (with its exit: return / continue), the
+  clauses of `isErrNoController`'s type switch, the complete closures CreateTopic / DeleteTopic /
+  CreatePartitions pass to `retryOnError`, and the loop-free pieces of the AlterPartitionReassignments closure
+  (NOT_CONTROLLER test, top-level test, per-partition test, final result).
+  Still tied by correspondence (harness) only: the loop condition of `retryOnError` (a `for` header is not a
+  statement), which clause of the type switch a Go error value selects, the `range` loops of the reassignment
+  closure and the grouping loops of DeleteRecords / DescribeConsumerGroups.
 -/
 namespace Bridge.C19
 open Model.Admin
@@ -99,5 +102,148 @@ theorem deleteGroupInspect_eq_inspectItem (eInc nilErr code : Int) (present : Bo
   · by_cases hc : code = 0
     · subst hc; simp [inspectItem, encOutcome]
     · simp [inspectItem, encOutcome, hc]
+
+/-! ## `retryOnError`: one pass through the loop body -/
+
+/-- The loop body as the source has it now (`err = fn()`, test, log, sleep, `continue`): exit code 3 =
+    `return err`, 1 = `continue`. For any encoding of errors as opaque values in which only `nil` encodes "no
+    error", one iteration of the model's `retryLoop` does what the translated body says: it returns the attempt's
+    result exactly when that is nil or not retryable, otherwise it goes round again with that result as `err`. -/
+theorem retryLoopBody_eq {σ : Type} (retryable : Err → Bool) (fn : σ → σ × Outcome) (fuel : Nat) (s : σ)
+    (last : Outcome) (enc : Outcome → Int) (nilErr err0 : Int) (henc : ∀ o, enc o = nilErr ↔ o = none) :
+    (Gen.C19.retryLoopBody err0 nilErr
+        (match (fn s).2 with | some e => retryable e | none => false) (enc (fn s).2) = (3, enc (fn s).2) ∧
+      retryLoop retryable fn (fuel + 1) s last = fn s) ∨
+    (Gen.C19.retryLoopBody err0 nilErr
+        (match (fn s).2 with | some e => retryable e | none => false) (enc (fn s).2) = (1, 0) ∧
+      retryLoop retryable fn (fuel + 1) s last = retryLoop retryable fn fuel (fn s).1 (fn s).2) := by
+  unfold Gen.C19.retryLoopBody
+  rcases hfs : fn s with ⟨s', o⟩
+  cases o with
+  | none =>
+    left
+    have : enc none = nilErr := (henc none).mpr rfl
+    simp [retryLoop, hfs, this]
+  | some e =>
+    have hne : enc (some e) ≠ nilErr := fun h => by have := (henc (some e)).mp h; cases this
+    by_cases hr : retryable e = true
+    · right; simp [retryLoop, hfs, hr, hne]
+    · left; simp [retryLoop, hfs, hr, hne]
+
+/-! ## `isErrNoController`: the clauses of the type switch -/
+
+/-- `*TopicError` / `*TopicPartitionError` clause (`e.Err == ErrNotController`; both clauses have this text) -/
+theorem isNoCtrlTopicError_eq (c : Int) : Gen.C19.isNoCtrlTopicError c = isErrNoController (.kerr c) := by
+  by_cases h : c = 41 <;> simp [Gen.C19.isNoCtrlTopicError, isErrNoController, NOT_CONTROLLER, h]
+
+/-- `KError` clause (`e == ErrNotController`) -/
+theorem isNoCtrlKError_eq (c : Int) : Gen.C19.isNoCtrlKError c = isErrNoController (.kerr c) := by
+  by_cases h : c = 41 <;> simp [Gen.C19.isNoCtrlKError, isErrNoController, NOT_CONTROLLER, h]
+
+/-- every other error type: `return false` -/
+theorem isNoCtrlDefault_eq (e : Err) (h : ∀ c, e ≠ .kerr c) : Gen.C19.isNoCtrlDefault = isErrNoController e := by
+  cases e <;> first | rfl | exact absurd rfl (h _)
+
+/-! ## The closures passed to `retryOnError` -/
+
+/-- errors as opaque values, with `eT` the error of a failed broker call -/
+def encOutcomeT (eInc nilErr eT : Int) : Outcome → Int
+  | none => nilErr
+  | some .incomplete => eInc
+  | some .transport => eT
+  | some (.kerr c) => c
+  | some _ => 0
+
+/-- what the model calls the answer, given what the Go closure saw: the broker call failed (`sendErr ≠ nil`), or a
+    response in which the topic is present with `code`, or absent -/
+def replyOf (nilErr sendErr : Int) (present : Bool) (code : Int) : Reply :=
+  if sendErr ≠ nilErr then .transport else .resp 0 (if present then [(0, code)] else [])
+
+private theorem closure_table (nilErr eInc sendErr code : Int) (present : Bool) :
+    (if sendErr ≠ nilErr then (sendErr, false)
+     else if ¬ (present = true) then (eInc, false)
+     else if code ≠ 0 then (if code = 41 then (code, true) else (code, false))
+     else (nilErr, false)) =
+    (encOutcomeT eInc nilErr sendErr (inspectItem (replyOf nilErr sendErr present code)).1,
+     (inspectItem (replyOf nilErr sendErr present code)).2) := by
+  unfold replyOf
+  by_cases hs : sendErr = nilErr
+  · cases present
+    · simp [hs, inspectItem, encOutcomeT]
+    · by_cases hc : code = 0
+      · subst hc; simp [hs, inspectItem, encOutcomeT]
+      · by_cases h41 : code = 41
+        · subst h41; simp [hs, inspectItem, encOutcomeT, NOT_CONTROLLER]
+        · simp [hs, inspectItem, encOutcomeT, hc, h41, NOT_CONTROLLER]
+  · simp [hs, inspectItem, encOutcomeT]
+
+/-- the CreateTopic closure as the source has it now, from `ca.Controller()` (succeeding) to its last return:
+    returned error and "did it call refreshController" are the model's `inspectItem` on the answer.
+    (The `*TopicError` it returns is represented by its code.) -/
+theorem createTopicClosure_eq (nilErr eInc sendErr code : Int) (present : Bool) :
+    Gen.C19.createTopicClosure nilErr eInc false true nilErr sendErr present code code =
+      (encOutcomeT eInc nilErr sendErr (inspectItem (replyOf nilErr sendErr present code)).1,
+       (inspectItem (replyOf nilErr sendErr present code)).2) := by
+  rw [← closure_table]; unfold Gen.C19.createTopicClosure
+  simp only [ne_eq, not_true_eq_false, ↓reduceIte]
+
+theorem deleteTopicClosure_eq (nilErr eInc sendErr code : Int) (present : Bool) :
+    Gen.C19.deleteTopicClosure nilErr eInc false true nilErr sendErr present code =
+      (encOutcomeT eInc nilErr sendErr (inspectItem (replyOf nilErr sendErr present code)).1,
+       (inspectItem (replyOf nilErr sendErr present code)).2) := by
+  rw [← closure_table]; unfold Gen.C19.deleteTopicClosure
+  simp only [ne_eq, not_true_eq_false, ↓reduceIte]
+
+theorem createPartitionsClosure_eq (nilErr eInc sendErr code : Int) (present : Bool) :
+    Gen.C19.createPartitionsClosure nilErr eInc false true nilErr sendErr present code code =
+      (encOutcomeT eInc nilErr sendErr (inspectItem (replyOf nilErr sendErr present code)).1,
+       (inspectItem (replyOf nilErr sendErr present code)).2) := by
+  rw [← closure_table]; unfold Gen.C19.createPartitionsClosure
+  simp only [ne_eq, not_true_eq_false, ↓reduceIte]
+
+/-- a failing `ca.Controller()` ends the closure with that error, nothing refreshed (all three closures) -/
+theorem closures_controller_error (nilErr eInc ctlErr sendErr code terr : Int) (present one : Bool)
+    (h : ctlErr ≠ nilErr) :
+    Gen.C19.createTopicClosure nilErr eInc false one ctlErr sendErr present code terr = (ctlErr, false) ∧
+    Gen.C19.deleteTopicClosure nilErr eInc false one ctlErr sendErr present code = (ctlErr, false) ∧
+    Gen.C19.createPartitionsClosure nilErr eInc false one ctlErr sendErr present code terr = (ctlErr, false) := by
+  simp [Gen.C19.createTopicClosure, Gen.C19.deleteTopicClosure, Gen.C19.createPartitionsClosure, h]
+
+/-! ## The loop-free pieces of the AlterPartitionReassignments closure (tree with the repairs) -/
+
+/-- top-level NOT_CONTROLLER: refresh the controller and return the code itself (exit code 3); anything else
+    falls through (0) — the first branch of `inspectReassign` for a variant with `reassignRetries` -/
+theorem reassignNotController_eq (v : Variant) (hv : v.reassignRetries = true) (n : Nat) (top : Int)
+    (items : List (Nat × Int)) :
+    Gen.C19.reassignNotController top false true =
+      (if top = NOT_CONTROLLER then ((3 : Int), top, true) else (0, 0, false)) ∧
+    (top = NOT_CONTROLLER → inspectReassign v n (.resp top items) = (some (.kerr top), true)) := by
+  refine ⟨by by_cases h : top = 41 <;> simp [Gen.C19.reassignNotController, NOT_CONTROLLER, h], ?_⟩
+  intro h; simp [inspectReassign, hv, h]
+
+/-- top-level error test: an entry is appended exactly when the model's `topCauses` (variant with
+    `reassignTopNonzero`) has one -/
+theorem reassignTopError_eq (v : Variant) (hv : v.reassignTopNonzero = true) (top errs0 appended : Int) :
+    Gen.C19.reassignTopError top errs0 appended = (if topCauses v top = [] then errs0 else appended) := by
+  by_cases h : top = 0
+  · subst h; simp [Gen.C19.reassignTopError, topCauses, hv]
+  · simp [Gen.C19.reassignTopError, topCauses, hv, h]
+
+/-- per-partition test: an entry is appended exactly when `itemCauses` has one for that partition -/
+theorem reassignPartitionError_eq (p : Nat) (code errs0 txt appended : Int) :
+    Gen.C19.reassignPartitionError code errs0 txt appended =
+      (if itemCauses [(p, code)] = [] then errs0 else appended) := by
+  by_cases h : code = 0
+  · subst h; simp [Gen.C19.reassignPartitionError, itemCauses]
+  · simp [Gen.C19.reassignPartitionError, itemCauses, h]
+
+/-- end of the closure: no collected cause → nil, otherwise the wrapped aggregate -/
+theorem reassignResult_eq (cs : List Cause) (wrapped nilErr : Int) :
+    Gen.C19.reassignResult cs.length wrapped nilErr = (if cs = [] then nilErr else wrapped) := by
+  cases cs with
+  | nil => simp [Gen.C19.reassignResult]
+  | cons c cs =>
+    have : ((c :: cs).length : Int) > 0 := by simp only [List.length_cons]; omega
+    simp only [Gen.C19.reassignResult, this, ↓reduceIte, reduceCtorEq]
 
 end Bridge.C19
